@@ -36,7 +36,8 @@ def check(case):
     if case.get('strip'):
         h = Graph(g.triples, top=g.top)
         ctx = layout.node_contexts(h)
-        if not (isinstance(ctx, list) and len(ctx) == len(h.triples) and all(c is None or c in h.variables() for c in ctx)):
+        # without Push markers no node context other than the top can be known
+        if not (isinstance(ctx, list) and len(ctx) == len(h.triples) and all(c is None or c == h.top for c in ctx)):
             f.append(('markerless-contexts', '%s -> %r' % (fmt(node), ctx)))
         for tr in h.triples:
             if layout.get_pushed_variable(h, tr) is not None:
